@@ -31,6 +31,31 @@ _real_mkdir = os.mkdir
 _real_rmdir = os.rmdir
 _real_truncate = os.truncate
 _real_getpid = os.getpid
+_real_listdir = os.listdir
+_real_scandir = os.scandir
+
+
+class _ScandirIter:
+    """What os.scandir returns, over a list of entries in a chosen order."""
+
+    def __init__(self, entries):
+        self._it = iter(entries)
+
+    def __iter__(self):
+        return self
+
+    def __next__(self):
+        return next(self._it)
+
+    def __enter__(self):
+        return self
+
+    def __exit__(self, *exc):
+        self.close()
+        return False
+
+    def close(self):
+        self._it = iter(())
 
 
 def _sim_getpid():
@@ -312,6 +337,44 @@ class Sandbox:
             return r
         return probe
 
+    # -- directory listings -------------------------------------------------
+    # The order in which a file system returns directory entries is not
+    # specified.  Inside the sandbox it is a function of (seed, directory,
+    # name): arbitrary, different from plan to plan, identical for every
+    # node and every call of one plan, and independent of who asks (the
+    # harness' own os.walk calls sort and draw nothing).  glob, os.walk,
+    # pathlib and shutil are built on os.scandir, so they follow.
+    def _listing_key(self, d):
+        from .kernel import H
+        seed = getattr(self.sim, 'seed', 0)
+
+        def key(name):
+            return (H(seed, 'listing-order', d, name), name)
+        return key
+
+    def _listdir(self, path='.'):
+        names = _real_listdir(path)
+        if not isinstance(path, (str, os.PathLike)) \
+                or isinstance(os.fspath(path), bytes) \
+                or not self.inside(path) or len(names) < 2:
+            return names
+        names.sort(key=self._listing_key(self.rel(path)))
+        self.sim.probe('listdir_permuted')
+        return names
+
+    def _scandir(self, path='.'):
+        if not isinstance(path, (str, os.PathLike)) \
+                or isinstance(os.fspath(path), bytes) \
+                or not self.inside(path):
+            return _real_scandir(path)
+        with _real_scandir(path) as it:
+            entries = list(it)
+        if len(entries) > 1:
+            key = self._listing_key(self.rel(path))
+            entries.sort(key=lambda e: key(e.name))
+            self.sim.probe('listdir_permuted')
+        return _ScandirIter(entries)
+
     # -- low-level descriptors (lock files are made this way) ---------------
     def _inside_any(self, path):
         try:
@@ -425,6 +488,8 @@ class Sandbox:
         os.open = self._os_open
         os.write = self._os_write
         os.close = self._os_close
+        os.listdir = self._listdir
+        os.scandir = self._scandir
         self._lowlevel = {
             'link': (_real_link, self._one_path(_real_link, 'link', 1)),
             'symlink': (_real_symlink,
@@ -448,6 +513,8 @@ class Sandbox:
                            (_real_os_open, self._os_open),
                            (_real_os_write, self._os_write),
                            (_real_os_close, self._os_close),
+                           (_real_listdir, self._listdir),
+                           (_real_scandir, self._scandir),
                            (_real_getpid, _sim_getpid)) + tuple(
                                self._lowlevel.values()):
             self._alias_undo.append(
@@ -471,6 +538,8 @@ class Sandbox:
         os.open = _real_os_open
         os.write = _real_os_write
         os.close = _real_os_close
+        os.listdir = _real_listdir
+        os.scandir = _real_scandir
         for name_, (real_, repl_) in getattr(self, '_lowlevel', {}).items():
             setattr(os, name_, real_)
         from . import seams as _seams
